@@ -99,7 +99,7 @@ HIST_PRE = '''
 import mappyfile
 # the cache logic is the same for every schema name; the small symbol schema keeps each traced path short
 DOC = mappyfile.loads("SYMBOL NAME 's' TYPE ELLIPSE ANTIALIAS TRUE ANCHORPOINT 0.5 0.5 TRANSPARENT 3 END")
-VERS = [None, 6.0, 7.6, 8.0]
+VERS = [None, 6.0, 6.4, 7.6, 7.8]          # pairs with the same integer part on both sides of a bound (6.2, 7.6) included
 res("symbol")                                  # populate before jsonref.load is stubbed
 _real_load = MV.jsonref.load
 
@@ -141,7 +141,7 @@ INFO = {
     "functions": ["mappyfile.validator.Validator.is_valid_for_version", "mappyfile.validator.Validator.get_versioned_properties",
                   "mappyfile.validator.Validator.get_versioned_schema", "mappyfile.validator.Validator.get_expanded_schema",
                   "mappyfile.validator.Validator.validate"],
-    "bounds": {"version": "symbolic float in (3, 9) for RANGE/FILTER/ACCEPT; HIST versions from {None, 6.0, 7.6, 8.0} on the symbol schema by symbolic index "
+    "bounds": {"version": "symbolic float in (3, 9) for RANGE/FILTER/ACCEPT; HIST versions from {None, 6.0, 6.4, 7.6, 7.8} on the symbol schema by symbolic index "
                           "(the cache key str(version) realises the float)", "history_length": 2},
     "outside": ["histories longer than two calls (the second call's pre-state is an arbitrary warmed cache of one other version)",
                 "state shared between Validator objects: none exists in the source (reading, not a verdict)",
@@ -225,8 +225,8 @@ def obligations(tier, seed):
                           meta={"desc": f"{len(chunk)} annotated entr(ies) of {t}: accepted iff version in range (real jsonschema on the pruned schema)",
                                 "bounds": {"entries": [(c[1], c[3], c[4]) for c in chunk]}, "functions": ["Validator.get_versioned_properties"]}))
     for op1 in range(3):
-        for i1 in range(4):
-            pre = f"(i1 == {i1}) & (i2 >= 0) & (i2 < 4) & (op1 == {op1}) & (op2 >= 0) & (op2 < 2)"
+        for i1 in range(5):
+            pre = f"(i1 == {i1}) & (i2 >= 0) & (i2 < 5) & (op1 == {op1}) & (op2 >= 0) & (op2 < 2)"
             src = PRELUDE + HIST_PRE + harness("h", [("i1", "int"), ("i2", "int"), ("op1", "int"), ("op2", "int")], pre, HIST)
             obs.append(Ob(name=f"C09-HIST/op{op1}.v{i1}", source=src, pct=900, timeout=1000,
                           meta={"desc": "second call on a used Validator == fresh Validator (versions by symbolic index, validate / schema export)",
